@@ -442,6 +442,190 @@ Definition p_pool_worker_b : list instr := [
   (*14*) IUnlock PLM;
   (*15*) IEnd ].
 
+(* ---- round 7 scenarios (generated by gen_progs_r7.py).
+   "locker": MutexLocker with an early Release(): thread 0 locks mutex 24 through a MutexLocker, calls Release(),
+   enters and leaves an inner scope on mutex 25 and leaves the outer scope (the destructor must do nothing more);
+   threads 1 and 2 contend for mutex 24.
+   "ssd": the SelectServer scenario "ss" where callback (1,0) queues a callback and then calls DrainCallbacks()
+   itself (nested drain from inside a callback; queue 4 = the nested call's local vector).
+   "prefs": the preference-saver hand-off.  Thread 0 (owner of the FileBackedPreferences, mutex 32 = ownership
+   token of the owner-only map, variable 38): Start the saver thread, SetValue (38 := 2), Save() = copy the map
+   and Execute(closure owning the copy) on the saver's SelectServer (mutex/queue 34, run batch 35, pipe 34),
+   SetValue (38 := 3), Synchronize() (mutex/condition/flag 37), read the file (variable 39), Join() (Terminate +
+   Thread::Join), ~SelectServer.  Thread 1 = FilePreferenceSaverThread::Run = SelectServer::Run. *)
+Definition LX := 24.  Definition LY := 25.  Definition LOC2 := 4.
+Definition OWN := 32.  Definition TM2 := 33.  Definition TC2 := 33.  Definition RUN2 := 33.
+Definition IMS := 34.  Definition INQS := 34.  Definition PIPES := 34.  Definition LOCS := 35.
+Definition ISRUN := 35.  Definition TERMV := 36.
+Definition SM := 37.  Definition SC := 37.  Definition COMPLETE := 37.
+Definition PREF := 38.  Definition FILEV := 39.  Definition ZEROV := 40.  Definition ONEV := 41.
+Definition p_lock_owner : list instr := [
+  (* 0*) ICreateI 1;
+  (* 1*) ICreateI 1;
+  (* 2*) ILock LX;
+  (* 3*) IUnlock LX;
+  (* 4*) ILock LY;
+  (* 5*) IUnlock LY;
+  (* 6*) IRst 9;
+  (* 7*) IJoinI 1;
+  (* 8*) IJoinI 1;
+  (* 9*) IEnd ].
+Definition p_lock_cont : list instr := [
+  (* 0*) ILock LX;
+  (* 1*) IUnlock LX;
+  (* 2*) ILock LX;
+  (* 3*) IUnlock LX;
+  (* 4*) IEnd ].
+Definition p_ssd_main : list instr := [
+  (* 0*) IRst 0;
+  (* 1*) IBrDone 4;
+  (* 2*) ICreateI 1;
+  (* 3*) IJmp 1;
+  (* 4*) IRst 1;
+  (* 5*) IBrDone 38;
+  (* 6*) ICnt;
+  (* 7*) IPoll PIPE INQ 5;
+  (* 8*) IWr PIPE 0;
+  (* 9*) ILock IM;
+  (*10*) ISwap INQ LOC;
+  (*11*) IUnlock IM;
+  (*12*) IBrEmpty LOC 5;
+  (*13*) IPop LOC;
+  (*14*) IRunC 12 20;
+  (*15*) ILock IM;
+  (*16*) IPushR INQ;
+  (*17*) IUnlock IM;
+  (*18*) IInc PIPE;
+  (*19*) IJmp 12;
+  (*20*) ILock IM;
+  (*21*) IPushR INQ;
+  (*22*) IUnlock IM;
+  (*23*) IInc PIPE;
+  (*24*) ILock IM;
+  (*25*) IBrEmpty INQ 36;
+  (*26*) ISwap INQ LOC2;
+  (*27*) IUnlock IM;
+  (*28*) IBrEmpty LOC2 24;
+  (*29*) IPop LOC2;
+  (*30*) IRunB 28;
+  (*31*) ILock IM;
+  (*32*) IPushR INQ;
+  (*33*) IUnlock IM;
+  (*34*) IInc PIPE;
+  (*35*) IJmp 28;
+  (*36*) IUnlock IM;
+  (*37*) IJmp 12;
+  (*38*) IRst 0;
+  (*39*) IBrDone 42;
+  (*40*) IJoinI 1;
+  (*41*) IJmp 39;
+  (*42*) ILock IM;
+  (*43*) IBrEmpty INQ 72;
+  (*44*) ISwap INQ LOC;
+  (*45*) IUnlock IM;
+  (*46*) IBrEmpty LOC 42;
+  (*47*) IPop LOC;
+  (*48*) IRunC 46 54;
+  (*49*) ILock IM;
+  (*50*) IPushR INQ;
+  (*51*) IUnlock IM;
+  (*52*) IInc PIPE;
+  (*53*) IJmp 46;
+  (*54*) ILock IM;
+  (*55*) IPushR INQ;
+  (*56*) IUnlock IM;
+  (*57*) IInc PIPE;
+  (*58*) ILock IM;
+  (*59*) IBrEmpty INQ 70;
+  (*60*) ISwap INQ LOC2;
+  (*61*) IUnlock IM;
+  (*62*) IBrEmpty LOC2 58;
+  (*63*) IPop LOC2;
+  (*64*) IRunB 62;
+  (*65*) ILock IM;
+  (*66*) IPushR INQ;
+  (*67*) IUnlock IM;
+  (*68*) IInc PIPE;
+  (*69*) IJmp 62;
+  (*70*) IUnlock IM;
+  (*71*) IJmp 46;
+  (*72*) IUnlock IM;
+  (*73*) IEnd ].
+Definition p_pref_owner : list instr := [
+  (* 0*) ILock OWN;
+  (* 1*) ILock TM2;
+  (* 2*) IBrVar RUN2 1 7;
+  (* 3*) ICreateI 1;
+  (* 4*) IBrVar RUN2 1 7;
+  (* 5*) IWait TC2 TM2;
+  (* 6*) IJmp 4;
+  (* 7*) IUnlock TM2;
+  (* 8*) IWr PREF 2;
+  (* 9*) ILd PREF;
+  (*10*) ILock IMS;
+  (*11*) IPushR INQS;
+  (*12*) IUnlock IMS;
+  (*13*) IInc PIPES;
+  (*14*) IWr PREF 3;
+  (*15*) ILock SM;
+  (*16*) ILd ZEROV;
+  (*17*) ILock IMS;
+  (*18*) IPushR INQS;
+  (*19*) IUnlock IMS;
+  (*20*) IInc PIPES;
+  (*21*) IBrVar COMPLETE 1 24;
+  (*22*) IWait SC SM;
+  (*23*) IJmp 21;
+  (*24*) IUnlock SM;
+  (*25*) ILd FILEV;
+  (*26*) IOut 3;
+  (*27*) IBrVar ISRUN 0 33;
+  (*28*) ILd ONEV;
+  (*29*) ILock IMS;
+  (*30*) IPushR INQS;
+  (*31*) IUnlock IMS;
+  (*32*) IInc PIPES;
+  (*33*) ILock TM2;
+  (*34*) ILd RUN2;
+  (*35*) IUnlock TM2;
+  (*36*) IBrReg 0 42;
+  (*37*) IRst 9;
+  (*38*) IJoinI 1;
+  (*39*) ILock TM2;
+  (*40*) IWr RUN2 0;
+  (*41*) IUnlock TM2;
+  (*42*) ILock IMS;
+  (*43*) IBrEmpty INQS 44;
+  (*44*) IUnlock IMS;
+  (*45*) IUnlock OWN;
+  (*46*) IEnd ].
+Definition p_pref_saver : list instr := [
+  (* 0*) ILock TM2;
+  (* 1*) IWr RUN2 1;
+  (* 2*) IUnlock TM2;
+  (* 3*) ISignal TC2;
+  (* 4*) IWr ISRUN 1;
+  (* 5*) IWr TERMV 0;
+  (* 6*) IBrVar TERMV 1 23;
+  (* 7*) IPoll PIPES INQS 6;
+  (* 8*) IWr PIPES 0;
+  (* 9*) ILock IMS;
+  (*10*) ISwap INQS LOCS;
+  (*11*) IUnlock IMS;
+  (*12*) IBrEmpty LOCS 6;
+  (*13*) IPop LOCS;
+  (*14*) IRunW FILEV 16 21;
+  (*15*) IJmp 12;
+  (*16*) ILock SM;
+  (*17*) IWr COMPLETE 1;
+  (*18*) ISignal SC;
+  (*19*) IUnlock SM;
+  (*20*) IJmp 12;
+  (*21*) IWr TERMV 1;
+  (*22*) IJmp 12;
+  (*23*) IWr ISRUN 0;
+  (*24*) IEnd ].
+
 Definition P : programs := fun id =>
   match id with
   | 0 => p_exec_main | 1 => p_consumer | 2 => p_producer
@@ -451,6 +635,7 @@ Definition P : programs := fun id =>
   | 12 => p_exec_main_re | 13 => p_consumer_re
   | 14 => p_per_owner | 15 => p_per_thread
   | 16 => p_pool_owner | 17 => p_pool_worker_a | 18 => p_pool_worker_b
+  | 19 => p_lock_owner | 20 => p_lock_cont | 21 => p_ssd_main | 22 => p_pref_owner | 23 => p_pref_saver
   | _ => []
   end.
 
@@ -559,3 +744,28 @@ Definition init_pool (n : nat) : state :=
                          | 2 => mk_thread 18 NotStarted 0 | _ => dummy end)
     (fun _ => 0)
     (fun k => match k with 0 => n | _ => 0 end).
+
+Definition init_locker : state :=
+  base_state 3
+    (fun t => match t with 0 => mk_thread 19 Fresh 0 | 1 => mk_thread 20 NotStarted 0
+                         | 2 => mk_thread 20 NotStarted 0 | _ => dummy end)
+    (fun _ => 0) (fun _ => 0).
+
+Definition init_ssd (lims rs : list nat) (k : nat) : state :=
+  base_state (1 + length lims)
+    (fun t => match t with
+              | 0 => mk_thread 21 Fresh 0
+              | S i => if i <? length lims then mk_thread 11 NotStarted (nth i lims 0) else dummy
+              end)
+    (fun _ => 0)
+    (fun x => match x with
+              | 0 => length lims
+              | 1 => k
+              | 98 => 1
+              | _ => if (101 <=? x) && (x <? 101 + length lims) then nth (x - 101) rs 0 else 0
+              end).
+
+Definition init_prefs : state :=
+  base_state 2
+    (fun t => match t with 0 => mk_thread 22 Fresh 0 | 1 => mk_thread 23 NotStarted 0 | _ => dummy end)
+    (fun x => if Nat.eqb x ONEV then 1 else 0) (fun _ => 0).
